@@ -91,7 +91,7 @@ def find_line(lines, rx, after=0):
 
 def step_loop_contract(nb, tb, prefix):
     inv = ['ctx == &g_ctx', 'ctx->machine == &%s_machine' % prefix, 'ctx->is_matched != 0', 'ctx->raise_done_event != 0', 'ctx->invoke != 0',
-           '(ctx->flags & 0xF6) == (__CPROVER_loop_entry(ctx->flags) & 0xF6)']
+           '(ctx->flags & 0xFE) == (__CPROVER_loop_entry(ctx->flags) & 0xFE)']
     for k in range(nb):
         inv.append('target_set[%d] == 0' % k)
     for k in range(tb):
@@ -357,7 +357,7 @@ def verify_step(base, wd, harness, defines, l_inv, l_sel, l_goto, l_label, lc, n
     # ---------- B
     a = os.path.join(wd, base + '.stepB.a.gb')
     b = os.path.join(wd, base + '.stepB.b.gb')
-    ok, msg = _goto_cc('h_step', a, defines, harness, log)
+    ok, msg = _goto_cc('h_step', a, dict(defines, SPEC_ANS='1'), harness, log)
     if not ok:
         return {'B': _err(base + '.stepB', 'goto-cc: ' + msg)}
     ctext = open(defines['GENC_FILE'].strip('"'), errors='replace').read()
@@ -369,7 +369,7 @@ def verify_step(base, wd, harness, defines, l_inv, l_sel, l_goto, l_label, lc, n
     if rc != 0:
         return {'B': _err(base + '.stepB', 'cutting the goto loop failed: ' + (e + o)[-400:])}
     job = cbmcrun.Job(base + '.stepB', [b], 'h_step', wd, enforce='uscxml_step',
-                      cbmc_flags=['--drop-unused-functions', '--unwind', str(max(K, 40)), '--unwinding-assertions'],
+                      cbmc_flags=['--drop-unused-functions', '--unwind', str(max(K, 40)), '--unwindset', 'sps_streq.0:260', '--unwinding-assertions'],
                       timeout=2400, mem_gb=16, meta={'doc': name, 'part': 'B'})
     job.prebuilt = True
     out['B'] = cbmcrun.verify(job)
@@ -481,7 +481,7 @@ if __name__ == '__main__':
             if x:
                 print(k, x['status'], x['reason'][:1500], x['obligations'], x['discharged'], x['canaries_fired'], x['canaries_total'], x['time'])
                 for f in x['failed'][:10]:
-                    print('   FAILED', f['property'], f['description'], [(t['lhs'], t['value']) for t in (f.get('trace') or []) if t['lhs'] and t['lhs'].startswith('wit_')][-14:])
+                    print('   FAILED', f['property'], f['description'], [(t['lhs'], t['value']) for t in (f.get('trace') or []) if t['lhs'] and t['lhs'].startswith('wit_')][-90:])
         print({k: v for k, v in r.items() if k not in ('tables', 'step')})
     else:
         r = run_all(sys.argv[1] if len(sys.argv) > 1 else 'quick')
